@@ -42,6 +42,9 @@ def check(ctx):
   r5_tables(ctx)
   r6_deadline(ctx)
   client_id_context(ctx)
+  from . import c12 as _c12
+  ctx.rule('C12.R5', 'shared with C12: a Tdiscarded is a one-way message (the transport writes header tag 0 for it and leases nothing)')
+  _c12.discard_one_way(ctx, 'C13.R3')
   from . import c14
   ctx.rule('C14.R3', 'shared with C14: the Thrift call that ends every Tdispatch body is built from this call\'s own arguments (a fresh <method>_args(*args, **kwargs))')
   c14.r3(ctx)
@@ -450,6 +453,21 @@ def r5_tables(ctx):
       okc = True
   ctx.ob('C13.R5', w, 'context count prefix', okc, 'no int16 count len(%s) before the entries' % dparam,
          'the contexts table starts with its int16 entry count')
+  # ... on every path that returns, the empty table included (its count 0 is two bytes the decoder reads)
+  n_cp = 0
+  for ev_, ex_ in enum_paths(ctx, w, unroll=1):
+    if ex_[0] == 'raise':
+      continue
+    n_cp += 1
+    packs = [e.node for e in ev_ if e.kind == 'call' and call_attr(e.node) == 'pack']
+    first_ok = False
+    if packs:
+      fmt = parse_format(packs[0].args[0]) if packs[0].args else None
+      first_ok = bool(fmt) and [(x.code, x.count) for x in fmt.fields] == [('h', 1)] and len(packs[0].args) == 2 and U(packs[0].args[1]) == 'len(%s)' % dparam
+    ctx.ob('C13.R5', w, 'every returning path writes the entry count first', first_ok,
+           'a path of _WriteContext returns %s' % ('after writing %s first' % U(packs[0]) if packs else 'without writing anything (an empty table still has its count)'),
+           'the contexts table starts with its int16 entry count, also when it is empty')
+  ctx.floor('C13.R5', 'returning paths of _WriteContext', n_cp, 1)
   # per-iteration paths: exactly (key, value) packs or raise
   if loops:
     ipaths = enum_paths(ctx, w, body=loops[0].body)
